@@ -1,3 +1,92 @@
+/-
+  C13 (termination) — the recursive operations of `VfsPath` terminate on in-memory filesystems:
+  the out-of-fuel sentinel of the model is unreachable with an explicit, computable fuel.
+
+  Background. In the model every Rust panic site is the explicit outcome `.panic`. The recursive
+  functions of PathOps.lean (`walkAll` = collecting `WalkDirIterator`, `removeDirAll`, `copyItems` /
+  `copyDir`, `moveDir`) take a `fuel` argument, and running out of fuel is ALSO rendered as
+  `.panic` — a sentinel of the model for "does not terminate", not a Rust panic site.
+  Props/C13.lean proves, for every filesystem whose methods do not panic, that a `.panic` of these
+  functions can only be that sentinel (`removeDirAll_panic_is_fuel`, `walkAll_panic_is_fuel`,
+  `copyItems_panic_is_fuel`, `copyDir_panic_is_fuel`, `moveDir_panic_is_fuel`) — but not that the
+  sentinel is unreachable. This file proves the missing half for in-memory filesystems, using the
+  exact-result theorems of Props/C05Walk.lean, Props/C11.lean, Props/C11Nested.lean.
+  Together: on in-memory filesystems (finite, well-formed trees) none of these operations panics
+  and none of them runs forever. For the other backends (overlay, altroot, physical, embedded)
+  the state is still only "panic ⇒ fuel sentinel" (C13.lean).
+
+  Setting. Leaf `i` of the world is a memory leaf holding the flat map `m` (`MemLeafAt w i m`);
+  `WF m` (the root is a directory, every other key has its parent present as a directory);
+  `FMap.NodupKeys m`. `IsDirOf m p` / `IsFileOf m p` / `m.find? p = none`: the three kinds of path.
+  `descCount m p` = `descendants m p` = number of keys strictly below `p`.
+  `walkCollect fuel P` = `P.walk_dir()?` then collecting the iterator (C05Walk.lean).
+
+  PROVED (no sorry; axioms: propext, Classical.choice, Quot.sound only)
+   1. walk_dir — ANY path string `p` (directory, file, absent, root), any listing order:
+        `walk_never_panics`: (1) `walkCollect m.length …` (fuel = number of entries) is not the
+          sentinel; (2) nor is any fuel > `descCount m p`; (3) the sentinel is the outcome IFF
+          `p` is a directory and fuel ≤ `descCount m p` — it is reachable only by starving the
+          fuel, never by the tree; (4) the world is unchanged whatever the fuel.
+        `walk_sentinel_iff` (= (3)), `walk_outcome` (absent ⇒ `FileNotFound`, file ⇒ `Other`,
+          directory with enough fuel ⇒ `Ok` list), `walkAll_never_panics` (iterator level),
+          `descCount_lt_length_any`.
+   2. remove_dir_all — ANY path string `p`, the root included (which `C11.removeDirAll_exact`
+      excludes), fuel ≥ 1 and `∀ key k, |k| < |p| + fuel` (the bound of the exact theorem: it bounds
+      the nesting depth below `p`):
+        `removeDirAll_outcome`: absent ⇒ `Ok`, world unchanged; FILE ⇒ `Err(Other)` with the path
+          filled in, world unchanged (the model, like the code, finds that the path exists, lists
+          it, and the listing of a file fails); directory ⇒ `Ok` and the new map is the old one
+          minus exactly the keys at or below `p`.
+        `removeDirAll_never_panics` (that bound), `removeDirAll_never_panics_fuel` (fuel > longest
+          key length), `removeDirAll_never_panics_keyFuel` (the computed fuel
+          `keyFuel m` = longest key length + 1), `removeDirAll_on_root` (`""`: `Ok`, NO key is
+          left — the model's MemoryFS erases the root entry too), `removeDirAll_on_file`,
+          `removeDirAll_on_absent`.
+   3. copy_dir / move_dir between memory leaves `i` (map `ms`) and `j` (map `md`), `i = j` or not,
+      any `Arc` identities. `copyDir_outcome` / `moveDir_outcome` give the result case by case:
+        (a) destination exists (file or directory) ⇒ `Err(Other)`, nothing changes — ANY
+            destination string, ANY source, ANY fuel (`transfer_dest_exists`);
+        (b) destination absent, its parent missing or a file ⇒ `Err(Other)`, nothing changes —
+            any strings, any fuel (`transfer_bad_parent`);
+        (c) destination fresh, source absent or a FILE ⇒ `Err(FileNotFound / Other)`, and the
+            EMPTY DESTINATION DIRECTORY STAYS BEHIND (copy_dir / move_dir are not atomic) — any
+            strings, any fuel (`transfer_src_not_dir`);
+        (d) source = destination = one absent path of one filesystem ⇒ `Ok(0)` / `Ok`
+            (`copyDir_same_absent`, `moveDir_same_absent`);
+        (e) the hypotheses of `C11.copyDir_exact` / `C11.moveDir_exact` ⇒ `Ok`.
+      `copyDir_never_panics`, `moveDir_never_panics`: for the canonical destination
+      `D = renderC bs`, EVERY state of the destination and EVERY kind of source, with
+      `descendants ms S < fuel` (move: also the two length bounds of `moveDir_exact`), the outcome
+      is not the sentinel — provided that, when the copy actually runs (`S` a directory), the keys
+      at or below `S` are canonical, on one leaf `D` is not at or below `S`, and for move `S ≠ ""`.
+   4. the predicates of C13.lean are exactly "sentinel", and are refuted:
+        `walkAllOut_panics`, `copyItemsOut_panics`, `childrenOut_panics`, `removeDirAllOut_panics`,
+        `copyDirOut_panics` — converses of C13's `*_panic_is_fuel`, on EVERY world and filesystem;
+        `fuel_branch_unreachable`, `copyDir_fuel_branch_unreachable` — on memory leaves with
+        sufficient fuel `RemoveDirAllOut` / `WalkAllOut` / the witness of `copyDir_panic_is_fuel`
+        do not hold: the `0 =>` branch is not reached.
+   5. `recursive_ops_terminate`: 1.–3. in one statement.
+   6. the divergence that IS real: `copyDir_into_own_subtree_diverges` — copy_dir of a directory
+      into its own subtree on one filesystem is out of fuel although the source has 0 descendants
+      (kernel-evaluated; C11.lean has more instances). This input violates "D not at or below S",
+      is a caller error outside the property, and the real code loops until it fails for another
+      reason. It shows that hypothesis cannot be dropped.
+   7. non-vacuity: `C05.sampleW` and `C11.wN` (depth 4, empty directory, empty file, siblings
+      a / ab / a.b, unsorted storage): every theorem instantiated with its hypotheses discharged
+      by `decide`, every case (a)–(e) evaluated by the kernel, the sentinel reached by starving
+      the fuel (walk: 6 vs 7; remove_dir_all: 3 vs 4).
+
+  NOT PROVED
+   * Other backends (overlay, altroot, physical, embedded) and stacks of them: termination of
+     the recursive operations is not proved; C13.lean's "panic ⇒ fuel sentinel" is all there is.
+   * copy_dir / move_dir when the copy runs with a non-canonical destination string or
+     non-canonical keys below the source (`VfsPath::join` would resolve them; such keys cannot be
+     created through `VfsPath`), and move_dir with the ROOT of a filesystem as source.
+   * That copy_dir into the own subtree diverges for EVERY fuel (only instances are evaluated).
+   * For remove_dir_all the fuel bound is sufficient, not exact (it is stated in key lengths, an
+     upper bound of the nesting depth); for the walk the bound is exact.
+   * The async iterator (Props/C15) and concurrent mutation during the operation.
+-/
 import VfsModel.Props.C11Nested
 import VfsModel.Props.C05Walk
 import VfsModel.Props.C13
@@ -154,6 +243,889 @@ theorem removeDirAll_on_file (id fuel : Nat) (p : Str) (hp : IsFileOf m p) :
   simp [bind, M.bind, VPath.exists_, run_exists h, contains_true he, VPath.readDir, M.withPath,
     run_readDir h, Mem.readDir, he, hf, fail, Res.withPath]
 
+/-- the ROOT (`p = ""`, which `removeDirAll_exact` excludes): the children go one after the other,
+then the model's `MemoryFS::remove_dir("")` finds the root empty and erases its entry too — `Ok`,
+and no key is left. Fuel: more than the longest key is long. -/
+theorem removeDirAll_on_root (hwf : WF m) (hnd : FMap.NodupKeys m) (id fuel : Nat)
+    (hfuel : ∀ k e', m.find? k = some e' → k.length < fuel) :
+    ∃ m', VPath.removeDirAll fuel { fs := leafFS i, fsId := id, path := [] } w =
+        (.ok (), w.setLeafFiles i m') ∧ ∀ k, m'.find? k = none := by
+  obtain ⟨e, he, hd⟩ := hwf.1
+  cases fuel with
+  | zero => exact absurd (hfuel [] e he) (by simp)
+  | succ fuel =>
+    obtain ⟨m1, hrun, hwf1, hnd1, hfind⟩ := rc_of_rd i id fuel (rd_all i id fuel) []
+      (m.keys.filterMap (childName [])) w m h hwf hnd (filterMap_childName_nodup m [] hnd)
+      (fun n hn => (listing_spec m [] n hn).1) (fun n hn => (listing_spec m [] n hn).2)
+      (fun k e' hk => by have := hfuel k e' hk; simp only [List.length_nil]; omega)
+    have hP1 : m1.find? [] = some e := by
+      rw [hfind []]
+      have : (m.keys.filterMap (childName [])).any (fun n => under ([] ++ '/' :: n) []) = false := by
+        rw [Bool.eq_false_iff]
+        intro hany
+        rw [List.any_eq_true] at hany
+        obtain ⟨n, _, hu⟩ := hany
+        exact (under_child [] n [] hu).2 rfl
+      rw [this]; exact he
+    -- every key but the root lies below a listed child: it is gone
+    have hgone : ∀ k, k ≠ [] → m1.find? k = none := by
+      intro k hk
+      rw [hfind k]
+      cases hf : m.find? k with
+      | none => split <;> rfl
+      | some e' =>
+        obtain ⟨t, rfl⟩ := (Wk.below_iff [] k).1 (Wk.below_root hwf k.length k (Nat.le_refl _) ⟨e', hf⟩ hk)
+        obtain ⟨n, hn, ⟨en, hen⟩, hun⟩ := hwf.below_via_child [] t e' hf
+        have : (m.keys.filterMap (childName [])).any
+            (fun n => under ([] ++ '/' :: n) ([] ++ '/' :: t)) = true := by
+          rw [List.any_eq_true]
+          exact ⟨n, mem_listing m [] n hn en hen, hun⟩
+        rw [this]; rfl
+    have hempty : m1.keys.filterMap (childName []) = [] := by
+      apply List.eq_nil_iff_forall_not_mem.2
+      intro n hn
+      obtain ⟨_, e', he'⟩ := listing_spec m1 [] n hn
+      rw [hgone _ (by simp)] at he'
+      cases he'
+    have hrd : Mem.removeDir m1 [] = (.ok (), m1.erase []) := by
+      simp [Mem.removeDir, Mem.readDir_dir m1 [] e hP1 hd, hempty, contains_true hP1]
+    refine ⟨m1.erase [], ?_, ?_⟩
+    · rw [VPath.removeDirAll.eq_2]
+      have hl : (List.map (fun n => VPath.withStr { fs := leafFS i, fsId := id, path := [] } ([] ++ '/' :: n))
+          (m.keys.filterMap (childName []))) =
+          (List.map (fun n => ({ fs := leafFS i, fsId := id, path := [] ++ '/' :: n } : VPath))
+          (m.keys.filterMap (childName []))) := rfl
+      simp only [bind, M.bind, VPath.exists_, run_exists h, contains_true he, Bool.not_true,
+        Bool.false_eq_true, ↓reduceIte, VPath.readDir, M.withPath, run_readDir h,
+        Mem.readDir_dir m [] e he hd, Res.withPath, pure, M.pure, hl, hrun,
+        run_pRemoveDir (h.set m1), Mem.pRemoveDir, hrd, World.setLeafFiles_twice]
+    · intro k
+      rw [FMap.find?_erase]
+      by_cases hk : k = []
+      · rw [if_pos hk]
+      · rw [if_neg hk]; exact hgone k hk
+
+/-- what `remove_dir_all` returns, by the kind of `p` — ANY path string, the root included.
+Fuel: at least 1, and more than the length difference between `p` and the longest key (the
+bound of `C11.removeDirAll_exact`; it bounds the nesting depth below `p`). -/
+theorem removeDirAll_outcome (hwf : WF m) (hnd : FMap.NodupKeys m) (id fuel : Nat) (p : Str)
+    (hf0 : 0 < fuel) (hfuel : ∀ k e', m.find? k = some e' → k.length < p.length + fuel) :
+    (m.find? p = none →
+      VPath.removeDirAll fuel { fs := leafFS i, fsId := id, path := p } w = (.ok (), w)) ∧
+    (IsFileOf m p →
+      VPath.removeDirAll fuel { fs := leafFS i, fsId := id, path := p } w =
+        (.err .other (some p), w)) ∧
+    (IsDirOf m p →
+      ∃ m', VPath.removeDirAll fuel { fs := leafFS i, fsId := id, path := p } w =
+          (.ok (), w.setLeafFiles i m') ∧
+        ∀ k, m'.find? k = if under p k then none else m.find? k) := by
+  obtain ⟨f, rfl⟩ : ∃ f, fuel = f + 1 := ⟨fuel - 1, by omega⟩
+  refine ⟨removeDirAll_on_absent h id f p, removeDirAll_on_file h id f p, ?_⟩
+  rintro ⟨e, he, hd⟩
+  by_cases hp : p = []
+  · subst hp
+    obtain ⟨m', hrun, hnone⟩ := removeDirAll_on_root h hwf hnd id (f + 1)
+      (fun k e' hk => by have := hfuel k e' hk; simpa using this)
+    refine ⟨m', hrun, fun k => ?_⟩
+    rw [hnone k]
+    split
+    · rfl
+    · rename_i hu
+      cases hf : m.find? k with
+      | none => rfl
+      | some e' =>
+        exfalso
+        apply hu
+        by_cases hk : k = []
+        · subst hk; exact under_self _
+        · obtain ⟨t, rfl⟩ := (Wk.below_iff [] k).1
+            (Wk.below_root hwf k.length k (Nat.le_refl _) ⟨e', hf⟩ hk)
+          exact (under_iff [] _).2 (Or.inr ⟨t, rfl⟩)
+  · obtain ⟨m', hrun, _, _, hfind⟩ :=
+      C11.removeDirAll_exact h hwf hnd id (f + 1) p e hp he hd hfuel
+    exact ⟨m', hrun, hfind⟩
+
+/-- **`remove_dir_all` terminates**: on a memory leaf holding a well-formed map with unique keys,
+for EVERY path `p` (absent, file, directory, root), with fuel ≥ 1 exceeding the length difference
+between `p` and the longest key, the outcome is not the sentinel -/
+theorem removeDirAll_never_panics (hwf : WF m) (hnd : FMap.NodupKeys m) (id fuel : Nat) (p : Str)
+    (hf0 : 0 < fuel) (hfuel : ∀ k e', m.find? k = some e' → k.length < p.length + fuel) :
+    (VPath.removeDirAll fuel { fs := leafFS i, fsId := id, path := p } w).1 ≠ .panic := by
+  obtain ⟨h1, h2, h3⟩ := removeDirAll_outcome h hwf hnd id fuel p hf0 hfuel
+  rcases path_cases m p with hp | hp | hp
+  · rw [h1 hp]; intro hc; cases hc
+  · rw [h2 hp]; intro hc; cases hc
+  · obtain ⟨m', hrun, _⟩ := h3 hp
+    rw [hrun]; intro hc; cases hc
+
+/-- the plain bound: more fuel than the longest key is long -/
+theorem removeDirAll_never_panics_fuel (hwf : WF m) (hnd : FMap.NodupKeys m) (id fuel : Nat)
+    (p : Str) (hfuel : ∀ k e', m.find? k = some e' → k.length < fuel) :
+    (VPath.removeDirAll fuel { fs := leafFS i, fsId := id, path := p } w).1 ≠ .panic := by
+  obtain ⟨e, he, _⟩ := hwf.1
+  exact removeDirAll_never_panics h hwf hnd id fuel p
+    (by have := hfuel [] e he; simp only [List.length_nil] at this; exact this)
+    (fun k e' hk => by have := hfuel k e' hk; omega)
+
+/-- an explicit fuel computed from the map: `keyFuel m` = longest key length + 1 -/
+theorem removeDirAll_never_panics_keyFuel (hwf : WF m) (hnd : FMap.NodupKeys m) (id : Nat)
+    (p : Str) :
+    (VPath.removeDirAll (keyFuel m) { fs := leafFS i, fsId := id, path := p } w).1 ≠ .panic :=
+  removeDirAll_never_panics_fuel h hwf hnd id (keyFuel m) p (keyFuel_bound m)
+
 end remove
+
+/-! ## 3. `copy_dir` / `move_dir` -/
+
+/-- `create_dir` on an absent path that is not a fresh destination (no parent part, parent
+missing, or parent a file) fails and changes nothing -/
+theorem pCreateDir_not_fresh (md : FMap) (D : Str) (habs : md.find? D = none)
+    (hnf : ¬ FreshDest md D) : Mem.pCreateDir md D = (.err .other (some D), md) := by
+  unfold Mem.pCreateDir
+  by_cases hpo : Mem.parentOk md D = true
+  · rw [if_pos hpo]
+    have hns : '/' ∉ D := fun hs => hnf ⟨habs, hs, Mem.parentOk_spec md D hpo⟩
+    simp [Mem.createDir, Mem.ensureHasParent, hns, fail, Res.withPath]
+  · rw [if_neg hpo]
+
+section transfer
+variable {w : World} {i j : Nat} {ms md : FMap} (hi : MemLeafAt w i ms) (hj : MemLeafAt w j md)
+  (sid did fuel : Nat) (S D : Str)
+include hi hj
+
+omit hi in
+/-- the world after `create_dir` of a fresh destination -/
+theorem run_createDir_fresh (hfresh : FreshDest md D) :
+    VPath.createDir { fs := leafFS j, fsId := did, path := D } w =
+      (.ok (), w.setLeafFiles j (md.insert D dirEntryNow)) := by
+  rw [run_pCreateDir hj, hfresh.pCreateDir]
+
+omit hi in
+/-- the source leaf after `create_dir` of the destination -/
+theorem srcLeaf_after (hi' : MemLeafAt w i ms) :
+    ∃ m1, MemLeafAt (w.setLeafFiles j (md.insert D dirEntryNow)) i m1 ∧
+      ∀ k, m1.find? k = if i = j ∧ k = D then some dirEntryNow else ms.find? k := by
+  by_cases hij : i = j
+  · subst hij
+    have := hi'.unique hj; subst this
+    refine ⟨_, hj.set _, fun k => ?_⟩
+    rw [FMap.find?_insert]
+    by_cases hk : k = D <;> simp [hk]
+  · exact ⟨ms, hi'.set_ne (fun e => hij e.symm) _, fun k => by simp [hij]⟩
+
+omit hi in
+/-- the walk-and-copy body, destination absent but NOT a fresh destination: `create_dir` fails,
+nothing changes -/
+theorem copyDirBody_bad_parent (habs : md.find? D = none) (hnf : ¬ FreshDest md D) :
+    VPath.copyDirBody fuel { fs := leafFS i, fsId := sid, path := S }
+      { fs := leafFS j, fsId := did, path := D } w = (.err .other (some D), w) := by
+  unfold VPath.copyDirBody
+  simp only [bind, M.bind, run_pCreateDir hj, pCreateDir_not_fresh md D habs hnf, hj.same]
+
+/-- fresh destination, the source is NOT a directory (absent or a file) and is not the
+destination path itself: the destination directory is created, then `walk_dir` fails — an error,
+and the empty destination directory stays behind -/
+theorem copyDirBody_src_not_dir (hfresh : FreshDest md D) (hsrc : ¬ IsDirOf ms S)
+    (hne : ¬ (i = j ∧ S = D)) :
+    VPath.copyDirBody fuel { fs := leafFS i, fsId := sid, path := S }
+      { fs := leafFS j, fsId := did, path := D } w =
+      (.err (if ms.contains S then .other else .fileNotFound) (some S),
+        w.setLeafFiles j (md.insert D dirEntryNow)) := by
+  obtain ⟨m1, hm1, hfind⟩ := srcLeaf_after hj D hi
+  have hS : m1.find? S = ms.find? S := by
+    rw [hfind S, if_neg hne]
+  have hfail := Wk.run_walkDir_fail hm1 sid S (by
+    intro e he hd
+    rw [hS] at he
+    exact hsrc ⟨e, he, hd⟩)
+  have hc : m1.contains S = ms.contains S := by unfold FMap.contains; rw [hS]
+  unfold VPath.copyDirBody
+  simp only [bind, M.bind, run_createDir_fresh hj did D hfresh]
+  have : ({ fs := leafFS i, fsId := sid, path := S } : VPath) = mk i sid S := rfl
+  rw [this, hfail, hc]
+
+omit hi in
+/-- the corner left: source and destination are the SAME absent path of one filesystem. The
+destination directory is created, is then walked as the source, is empty: `Ok(0)` -/
+theorem copyDirBody_same_absent (hwfd : WF md) (hfresh : FreshDest md D) (hij : i = j) :
+    VPath.copyDirBody (fuel + 1) { fs := leafFS i, fsId := sid, path := D }
+      { fs := leafFS j, fsId := did, path := D } w =
+      (.ok 0, w.setLeafFiles j (md.insert D dirEntryNow)) := by
+  subst hij
+  have hm1 : MemLeafAt (w.setLeafFiles i (md.insert D dirEntryNow)) i (md.insert D dirEntryNow) :=
+    hj.set _
+  have hempty : (md.insert D dirEntryNow).keys.filterMap (childName D) = [] := by
+    apply List.eq_nil_iff_forall_not_mem.2
+    intro n hn
+    obtain ⟨_, e', he'⟩ := listing_spec _ D n hn
+    rw [FMap.find?_insert, if_neg (by
+      intro hc
+      have := congrArg List.length hc
+      simp at this), hfresh.child_absent hwfd n] at he'
+    cases he'
+  have hwalk := Wk.run_walkDir hm1 sid D dirEntryNow (by simp) rfl
+  unfold Wk.children at hwalk
+  rw [hempty] at hwalk
+  unfold VPath.copyDirBody
+  simp only [bind, M.bind, run_createDir_fresh hj did D hfresh]
+  have : ({ fs := leafFS i, fsId := sid, path := D } : VPath) = mk i sid D := rfl
+  rw [this, hwalk]
+  exact copyItems_done fuel _ _ 0 _
+
+end transfer
+
+section outcomes
+variable {w : World} {i j : Nat} {ms md : FMap} (hi : MemLeafAt w i ms) (hj : MemLeafAt w j md)
+  (sid did fuel : Nat) (S D : Str)
+include hi hj
+
+omit hi in
+theorem dst_exists_eq :
+    VPath.exists_ { fs := leafFS j, fsId := did, path := D } w = (.ok (md.contains D), w) := by
+  simp [VPath.exists_, run_exists hj]
+
+/-- `move_dir` on memory leaves takes the generic route (MemoryFS answers NotSupported to the
+fast path) -/
+theorem moveDir_route_mem (habs : md.find? D = none) :
+    VPath.moveDir fuel { fs := leafFS i, fsId := sid, path := S }
+      { fs := leafFS j, fsId := did, path := D } w =
+    M.withPath S (M.bind (VPath.copyDirBody fuel { fs := leafFS i, fsId := sid, path := S }
+        { fs := leafFS j, fsId := did, path := D })
+      (fun _ => VPath.removeDirAll fuel { fs := leafFS i, fsId := sid, path := S })) w := by
+  rw [moveDir_route fuel _ _ w (by rw [dst_exists_eq hj, contains_false habs])
+    (fun _ => ⟨none, run_moveDir_mem hi S D⟩), moveDirBody_eq]
+
+omit hi in
+/-- (a) the destination EXISTS (file or directory): refused, nothing changes -/
+theorem transfer_dest_exists (hex : md.contains D = true) :
+    VPath.copyDir fuel { fs := leafFS i, fsId := sid, path := S }
+      { fs := leafFS j, fsId := did, path := D } w = (.err .other (some S), w) ∧
+    VPath.moveDir fuel { fs := leafFS i, fsId := sid, path := S }
+      { fs := leafFS j, fsId := did, path := D } w = (.err .other (some S), w) := by
+  have := C11.existing_destination_refused { fs := leafFS i, fsId := sid, path := S }
+    { fs := leafFS j, fsId := did, path := D } fuel w (by rw [dst_exists_eq hj, hex])
+  exact ⟨this.2.2.1, this.2.2.2⟩
+
+/-- (b) the destination is absent and its parent is missing or a file: `create_dir` fails,
+nothing changes -/
+theorem transfer_bad_parent (habs : md.find? D = none) (hnf : ¬ FreshDest md D) :
+    VPath.copyDir fuel { fs := leafFS i, fsId := sid, path := S }
+      { fs := leafFS j, fsId := did, path := D } w = (.err .other (some S), w) ∧
+    VPath.moveDir fuel { fs := leafFS i, fsId := sid, path := S }
+      { fs := leafFS j, fsId := did, path := D } w = (.err .other (some S), w) := by
+  constructor
+  · rw [copyDir_route _ _ _ w (by rw [dst_exists_eq hj, contains_false habs])]
+    simp only [M.withPath, copyDirBody_bad_parent hj sid did fuel S D habs hnf, Res.withPath]
+  · rw [moveDir_route_mem hi hj sid did fuel S D habs]
+    simp only [M.withPath, M.bind, copyDirBody_bad_parent hj sid did fuel S D habs hnf,
+      Res.withPath]
+
+/-- (c) fresh destination, the source is absent or a file (and not the destination path itself):
+an error — `FileNotFound` / `Other` with the source path — and the EMPTY DESTINATION DIRECTORY
+STAYS BEHIND (copy_dir / move_dir are not atomic) -/
+theorem transfer_src_not_dir (hfresh : FreshDest md D) (hsrc : ¬ IsDirOf ms S)
+    (hne : ¬ (i = j ∧ S = D)) :
+    VPath.copyDir fuel { fs := leafFS i, fsId := sid, path := S }
+      { fs := leafFS j, fsId := did, path := D } w =
+      (.err (if ms.contains S then .other else .fileNotFound) (some S),
+        w.setLeafFiles j (md.insert D dirEntryNow)) ∧
+    VPath.moveDir fuel { fs := leafFS i, fsId := sid, path := S }
+      { fs := leafFS j, fsId := did, path := D } w =
+      (.err (if ms.contains S then .other else .fileNotFound) (some S),
+        w.setLeafFiles j (md.insert D dirEntryNow)) := by
+  constructor
+  · rw [copyDir_route _ _ _ w (by rw [dst_exists_eq hj, contains_false hfresh.absent])]
+    simp only [M.withPath, copyDirBody_src_not_dir hi hj sid did fuel S D hfresh hsrc hne,
+      Res.withPath]
+  · rw [moveDir_route_mem hi hj sid did fuel S D hfresh.absent]
+    simp only [M.withPath, M.bind, copyDirBody_src_not_dir hi hj sid did fuel S D hfresh hsrc hne,
+      Res.withPath]
+
+omit hi in
+/-- (d) the corner: source = destination = one absent path of one filesystem: `copy_dir` creates
+it, walks it, finds it empty: `Ok(0)`, the new empty directory stays -/
+theorem copyDir_same_absent (hwfd : WF md) (hfresh : FreshDest md D) (hij : i = j) :
+    VPath.copyDir (fuel + 1) { fs := leafFS i, fsId := sid, path := D }
+      { fs := leafFS j, fsId := did, path := D } w =
+      (.ok 0, w.setLeafFiles j (md.insert D dirEntryNow)) := by
+  rw [copyDir_route _ _ _ w (by rw [dst_exists_eq hj, contains_false hfresh.absent])]
+  simp only [M.withPath, copyDirBody_same_absent hj sid did fuel D hwfd hfresh hij, Res.withPath]
+
+end outcomes
+
+section main
+variable {w : World} {i j : Nat} {ms md : FMap} (hi : MemLeafAt w i ms) (hj : MemLeafAt w j md)
+  (hwfs : WF ms) (hwfd : WF md) (hnd : FMap.NodupKeys ms) (sid did fuel : Nat) (S : Str)
+include hi hj hwfs hwfd hnd
+
+/-- (d') the corner for `move_dir`: source = destination = one absent path of one filesystem:
+the directory is created, walked (empty), and removed again: `Ok` -/
+theorem moveDir_same_absent (D : Str) (hfresh : FreshDest md D) (hij : i = j) (hf0 : 0 < fuel)
+    (hb1 : ∀ k e, ms.find? k = some e → k.length < D.length + fuel) :
+    ∃ w', VPath.moveDir fuel { fs := leafFS i, fsId := sid, path := D }
+      { fs := leafFS j, fsId := did, path := D } w = (.ok (), w') := by
+  obtain ⟨f, rfl⟩ : ∃ f, fuel = f + 1 := ⟨fuel - 1, by omega⟩
+  rw [moveDir_route_mem hi hj sid did (f + 1) D D hfresh.absent]
+  subst hij
+  have := hi.unique hj; subst this
+  have hm1 : MemLeafAt (w.setLeafFiles i (ms.insert D dirEntryNow)) i (ms.insert D dirEntryNow) :=
+    hj.set _
+  have hwf1 : WF (ms.insert D dirEntryNow) := by
+    have := hwfs.pCreateDir D
+    rwa [hfresh.pCreateDir] at this
+  obtain ⟨m', hrun, _⟩ := (removeDirAll_outcome hm1 hwf1 (FMap.nodup_insert _ _ _ hnd) sid (f + 1) D
+    (by omega) (fun k e' hk => by
+      rw [FMap.find?_insert] at hk
+      by_cases hkd : k = D
+      · subst hkd; omega
+      · rw [if_neg hkd] at hk; exact hb1 k e' hk)).2.2 ⟨dirEntryNow, by simp, rfl⟩
+  refine ⟨(w.setLeafFiles i (ms.insert D dirEntryNow)).setLeafFiles i m', ?_⟩
+  simp only [M.withPath, M.bind, copyDirBody_same_absent hj sid did f D hwfs hfresh rfl, hrun,
+    Res.withPath]
+
+/-- **`copy_dir`, every case.** Memory leaves `i` (source map `ms`) and `j` (destination map
+`md`), equal or not; `S` ANY source path string, `D` the destination.
+ (a) `D` exists ⇒ `Err(Other)`, nothing changes — any `D`, any fuel (0 included);
+ (b) `D` absent, parent missing or a file ⇒ `Err(Other)`, nothing changes — any `D`, any fuel;
+ (c) `D` fresh, `S` absent or a file, not `S = D` on one leaf ⇒ `Err`, the empty directory `D`
+     stays behind — any `D`, any fuel;
+ (d) `D` fresh, `S = D` on one leaf ⇒ `Ok(0)` (fuel ≥ 1);
+ (e) `D = renderC bs` canonical and fresh, `S` a directory whose subtree has canonical keys, on one
+     leaf `D` not at or below `S`, `descendants ms S < fuel` ⇒ `Ok(descendants ms S)`
+     (`C11.copyDir_exact` says what the maps are).
+ Not covered: on one leaf `D` fresh and strictly below the directory `S` (the real divergence,
+ §5); non-canonical `D` or non-canonical keys below `S` when the copy actually runs. -/
+theorem copyDir_outcome (D : Str) :
+    (md.contains D = true →
+      VPath.copyDir fuel { fs := leafFS i, fsId := sid, path := S }
+        { fs := leafFS j, fsId := did, path := D } w = (.err .other (some S), w)) ∧
+    (md.find? D = none → ¬ FreshDest md D →
+      VPath.copyDir fuel { fs := leafFS i, fsId := sid, path := S }
+        { fs := leafFS j, fsId := did, path := D } w = (.err .other (some S), w)) ∧
+    (FreshDest md D → ¬ IsDirOf ms S → ¬ (i = j ∧ S = D) →
+      VPath.copyDir fuel { fs := leafFS i, fsId := sid, path := S }
+        { fs := leafFS j, fsId := did, path := D } w =
+        (.err (if ms.contains S then .other else .fileNotFound) (some S),
+          w.setLeafFiles j (md.insert D dirEntryNow))) ∧
+    (FreshDest md D → i = j → S = D → 0 < fuel →
+      VPath.copyDir fuel { fs := leafFS i, fsId := sid, path := S }
+        { fs := leafFS j, fsId := did, path := D } w =
+        (.ok 0, w.setLeafFiles j (md.insert D dirEntryNow))) ∧
+    (∀ bs : List Str, D = renderC bs → (∀ c ∈ bs, GoodComp c) → FreshDest md D → IsDirOf ms S →
+      (∀ k e, ms.find? k = some e → under S k = true → Canon k) →
+      (i = j → under S D = false) → descendants ms S < fuel →
+      ∃ w', VPath.copyDir fuel { fs := leafFS i, fsId := sid, path := S }
+        { fs := leafFS j, fsId := did, path := D } w = (.ok (descendants ms S), w')) := by
+  refine ⟨fun hex => (transfer_dest_exists hj sid did fuel S D hex).1,
+    fun habs hnf => (transfer_bad_parent hi hj sid did fuel S D habs hnf).1,
+    fun hfresh hsrc hne => (transfer_src_not_dir hi hj sid did fuel S D hfresh hsrc hne).1, ?_, ?_⟩
+  · intro hfresh hij hSD hf0
+    obtain ⟨f, rfl⟩ : ∃ f, fuel = f + 1 := ⟨fuel - 1, by omega⟩
+    subst hSD
+    exact copyDir_same_absent hj sid did f S hwfd hfresh hij
+  · rintro bs rfl hbs hfresh hdir hcanon hout hfuel
+    obtain ⟨w', _, _, hrun, _⟩ := C11.copyDir_exact hi hj hwfs hwfd hnd sid did fuel S bs hbs hdir
+      hcanon hfresh hout hfuel
+    exact ⟨w', hrun⟩
+
+/-- **`copy_dir` terminates.** For EVERY state of the destination `D = renderC bs` (exists /
+absent with a bad parent / fresh) and EVERY kind of source `S` (absent / file / directory): with
+`descendants ms S < fuel` the outcome is not the sentinel — provided that, when the copy actually
+runs (`S` a directory), the keys below `S` are canonical and on one leaf `D` is not at or below
+`S`. -/
+theorem copyDir_never_panics (bs : List Str) (hbs : ∀ c ∈ bs, GoodComp c)
+    (hsrc : IsDirOf ms S → (∀ k e, ms.find? k = some e → under S k = true → Canon k) ∧
+      (i = j → under S (renderC bs) = false))
+    (hfuel : descendants ms S < fuel) :
+    (VPath.copyDir fuel { fs := leafFS i, fsId := sid, path := S }
+      { fs := leafFS j, fsId := did, path := renderC bs } w).1 ≠ .panic := by
+  obtain ⟨ha, hb, hc, hd, he⟩ := copyDir_outcome hi hj hwfs hwfd hnd sid did fuel S (renderC bs)
+  cases hD : md.find? (renderC bs) with
+  | some e => rw [ha (contains_true hD)]; intro h; cases h
+  | none =>
+    by_cases hfresh : FreshDest md (renderC bs)
+    · by_cases hdir : IsDirOf ms S
+      · obtain ⟨w', hrun⟩ := he bs rfl hbs hfresh hdir (hsrc hdir).1 (hsrc hdir).2 hfuel
+        rw [hrun]; intro h; cases h
+      · by_cases hne : i = j ∧ S = renderC bs
+        · rw [hd hfresh hne.1 hne.2 (by omega)]; intro h; cases h
+        · rw [hc hfresh hdir hne]; intro h; cases h
+    · rw [hb hD hfresh]; intro h; cases h
+
+/-- **`move_dir`, every case** — as `copyDir_outcome`; in (e) additionally `S ≠ ""` and the two
+length bounds of `C11.moveDir_exact` (fuel is also the recursion depth of `remove_dir_all`).
+Not covered beyond what `copyDir_outcome` leaves out: the ROOT of a filesystem as the source. -/
+theorem moveDir_outcome (D : Str) :
+    (md.contains D = true →
+      VPath.moveDir fuel { fs := leafFS i, fsId := sid, path := S }
+        { fs := leafFS j, fsId := did, path := D } w = (.err .other (some S), w)) ∧
+    (md.find? D = none → ¬ FreshDest md D →
+      VPath.moveDir fuel { fs := leafFS i, fsId := sid, path := S }
+        { fs := leafFS j, fsId := did, path := D } w = (.err .other (some S), w)) ∧
+    (FreshDest md D → ¬ IsDirOf ms S → ¬ (i = j ∧ S = D) →
+      VPath.moveDir fuel { fs := leafFS i, fsId := sid, path := S }
+        { fs := leafFS j, fsId := did, path := D } w =
+        (.err (if ms.contains S then .other else .fileNotFound) (some S),
+          w.setLeafFiles j (md.insert D dirEntryNow))) ∧
+    (FreshDest md D → i = j → S = D → 0 < fuel →
+      (∀ k e, ms.find? k = some e → k.length < S.length + fuel) →
+      ∃ w', VPath.moveDir fuel { fs := leafFS i, fsId := sid, path := S }
+        { fs := leafFS j, fsId := did, path := D } w = (.ok (), w')) ∧
+    (∀ bs : List Str, D = renderC bs → (∀ c ∈ bs, GoodComp c) → FreshDest md D → IsDirOf ms S →
+      S ≠ [] → (∀ k e, ms.find? k = some e → under S k = true → Canon k) →
+      (i = j → under S D = false) → descendants ms S < fuel →
+      (∀ k e, ms.find? k = some e → k.length < S.length + fuel) →
+      (i = j → ∀ k e, ms.find? k = some e → under S k = true →
+        D.length + k.length < 2 * S.length + fuel) →
+      ∃ w', VPath.moveDir fuel { fs := leafFS i, fsId := sid, path := S }
+        { fs := leafFS j, fsId := did, path := D } w = (.ok (), w')) := by
+  refine ⟨fun hex => (transfer_dest_exists hj sid did fuel S D hex).2,
+    fun habs hnf => (transfer_bad_parent hi hj sid did fuel S D habs hnf).2,
+    fun hfresh hsrc hne => (transfer_src_not_dir hi hj sid did fuel S D hfresh hsrc hne).2, ?_, ?_⟩
+  · intro hfresh hij hSD hf0 hb1
+    subst hSD
+    exact moveDir_same_absent hi hj hwfs hwfd hnd sid did fuel S hfresh hij hf0 hb1
+  · rintro bs rfl hbs hfresh hdir hS hcanon hout hfuel hb1 hb2
+    obtain ⟨w', _, _, hrun, _⟩ := C11.moveDir_exact hi hj hwfs hwfd hnd sid did fuel S bs hS hbs
+      hdir hcanon hfresh hout hfuel hb1 hb2
+    exact ⟨w', hrun⟩
+
+/-- **`move_dir` terminates** — for every state of the destination and every kind of source, under
+the fuel bounds of `C11.moveDir_exact`; when the move actually runs (`S` a directory): `S ≠ ""`,
+canonical keys below `S`, on one leaf `D` not at or below `S`. -/
+theorem moveDir_never_panics (bs : List Str) (hbs : ∀ c ∈ bs, GoodComp c)
+    (hsrc : IsDirOf ms S → S ≠ [] ∧
+      (∀ k e, ms.find? k = some e → under S k = true → Canon k) ∧
+      (i = j → under S (renderC bs) = false) ∧
+      (i = j → ∀ k e, ms.find? k = some e → under S k = true →
+        (renderC bs).length + k.length < 2 * S.length + fuel))
+    (hfuel : descendants ms S < fuel)
+    (hb1 : ∀ k e, ms.find? k = some e → k.length < S.length + fuel) :
+    (VPath.moveDir fuel { fs := leafFS i, fsId := sid, path := S }
+      { fs := leafFS j, fsId := did, path := renderC bs } w).1 ≠ .panic := by
+  obtain ⟨ha, hb, hc, hd, he⟩ := moveDir_outcome hi hj hwfs hwfd hnd sid did fuel S (renderC bs)
+  cases hD : md.find? (renderC bs) with
+  | some e => rw [ha (contains_true hD)]; intro h; cases h
+  | none =>
+    by_cases hfresh : FreshDest md (renderC bs)
+    · by_cases hdir : IsDirOf ms S
+      · obtain ⟨h1, h2, h3, h4⟩ := hsrc hdir
+        obtain ⟨w', hrun⟩ := he bs rfl hbs hfresh hdir h1 h2 h3 hfuel hb1 h4
+        rw [hrun]; intro h; cases h
+      · by_cases hne : i = j ∧ S = renderC bs
+        · obtain ⟨w', hrun⟩ := hd hfresh hne.1 hne.2 (by omega) hb1
+          rw [hrun]; intro h; cases h
+        · rw [hc hfresh hdir hne]; intro h; cases h
+    · rw [hb hD hfresh]; intro h; cases h
+
+end main
+
+/-! ## 4. closing the gap of C13.lean
+
+C13.lean proves, for every filesystem whose methods do not panic: a `.panic` of the recursive
+operations implies the predicate `RemoveDirAllOut` / `WalkAllOut` / `CopyItemsOut` ("the run
+follows successful steps down to the `0 =>` branch"). The converses hold on EVERY world, so these
+predicates say exactly "the outcome is the sentinel"; on in-memory filesystems they are refuted
+by the theorems above: the `0 =>` branch is unreachable with sufficient fuel. -/
+
+theorem walkAllOut_panics : ∀ (fuel : Nat) (s : VPath.Walk) (w : World),
+    VPath.WalkAllOut fuel s w → (VPath.walkAll fuel s w).1 = .panic
+  | 0, s, w, _ => by unfold VPath.walkAll; rfl
+  | fuel + 1, s, w, hout => by
+    unfold VPath.WalkAllOut at hout
+    obtain ⟨it, s', w', hn, hout'⟩ := hout
+    have ih := walkAllOut_panics fuel s' w' hout'
+    rw [VPath.walkAll]
+    simp only [bind, M.bind, hn]
+    rcases hr : VPath.walkAll fuel s' w' with ⟨r, w''⟩
+    rw [hr] at ih
+    simp only at ih
+    subst ih
+    rfl
+
+theorem copyItemsOut_panics (src dst : VPath) : ∀ (fuel : Nat) (s : VPath.Walk) (count : Nat)
+    (w : World), VPath.CopyItemsOut src dst fuel s w →
+      (VPath.copyItems fuel src dst s count w).1 = .panic
+  | 0, s, count, w, _ => by unfold VPath.copyItems; rfl
+  | fuel + 1, s, count, w, hout => by
+    unfold VPath.CopyItemsOut at hout
+    obtain ⟨x, s', w1, d, md, w2, w3, hn, hrel, hmd, hstep, hout'⟩ := hout
+    have ih := copyItemsOut_panics src dst fuel s' (count + 1) w3 hout'
+    rw [VPath.copyItems]
+    rcases hstep with ⟨hft, hcd⟩ | ⟨hft, hcf⟩
+    · simp only [bind, M.bind, hn, hrel, M.ret, hmd, hft, hcd]
+      rcases hr : VPath.copyItems fuel src dst s' (count + 1) w3 with ⟨r, w''⟩
+      rw [hr] at ih
+      simp only at ih
+      subst ih
+      rfl
+    · simp only [bind, M.bind, hn, hrel, M.ret, hmd, hft, hcf]
+      rcases hr : VPath.copyItems fuel src dst s' (count + 1) w3 with ⟨r, w''⟩
+      rw [hr] at ih
+      simp only at ih
+      subst ih
+      rfl
+
+theorem childrenOut_panics (fuel : Nat)
+    (hrec : ∀ (c : VPath) (w : World), VPath.RemoveDirAllOut fuel c w →
+      (VPath.removeDirAll fuel c w).1 = .panic) :
+    ∀ (cs : List VPath) (w : World),
+      VPath.ChildrenOut (VPath.removeDirAll fuel) (VPath.RemoveDirAllOut fuel) cs w →
+      (VPath.removeChildren fuel cs w).1 = .panic
+  | [], w, hout => by unfold VPath.ChildrenOut at hout; exact hout.elim
+  | c :: rest, w, hout => by
+    unfold VPath.ChildrenOut at hout
+    obtain ⟨md, w1, hmd, hcase⟩ := hout
+    rw [VPath.removeChildren]
+    rcases hcase with ⟨hft, hR⟩ | ⟨hft, w2, hact, hrest⟩ | ⟨hft, w2, hrm, hrest⟩
+    · have := hrec c w1 hR
+      simp only [bind, M.bind, hmd, hft]
+      rcases hr : VPath.removeDirAll fuel c w1 with ⟨r, w''⟩
+      rw [hr] at this
+      simp only at this
+      subst this
+      rfl
+    · have ih := childrenOut_panics fuel hrec rest w2 hrest
+      simp only [bind, M.bind, hmd, hft, hact]
+      exact ih
+    · have ih := childrenOut_panics fuel hrec rest w2 hrest
+      simp only [bind, M.bind, hmd, hft, hrm]
+      exact ih
+
+theorem removeDirAllOut_panics : ∀ (fuel : Nat) (p : VPath) (w : World),
+    VPath.RemoveDirAllOut fuel p w → (VPath.removeDirAll fuel p w).1 = .panic
+  | 0, p, w, _ => by unfold VPath.removeDirAll; rfl
+  | fuel + 1, p, w, hout => by
+    unfold VPath.RemoveDirAllOut at hout
+    obtain ⟨w1, children, w2, hex, hrd, hch⟩ := hout
+    have := childrenOut_panics fuel (removeDirAllOut_panics fuel) children w2 hch
+    rw [VPath.removeDirAll]
+    simp only [bind, M.bind, hex, Bool.not_true, Bool.false_eq_true, ↓reduceIte, hrd]
+    rcases hr : VPath.removeChildren fuel children w2 with ⟨r, w''⟩
+    rw [hr] at this
+    simp only at this
+    subst this
+    rfl
+
+/-- the witness `C13.copyDir_panic_is_fuel` extracts from a `.panic` of `copy_dir` does make
+`copy_dir` return the sentinel (every world, every filesystem) -/
+theorem copyDirOut_panics (fuel : Nat) (src dst : VPath) (w : World)
+    (hout : ∃ w1 w2 s w3, dst.exists_ w = (.ok false, w1) ∧ dst.createDir w1 = (.ok (), w2) ∧
+      src.walkDir w2 = (.ok s, w3) ∧ VPath.CopyItemsOut src dst fuel s w3) :
+    (src.copyDir fuel dst w).1 = .panic := by
+  obtain ⟨w1, w2, s, w3, hex, hcd, hwd, hout'⟩ := hout
+  have := copyItemsOut_panics src dst fuel s 0 w3 hout'
+  unfold VPath.copyDir
+  simp only [M.withPath, bind, M.bind, hex, Bool.false_eq_true, ↓reduceIte, hcd, hwd]
+  rcases hr : VPath.copyItems fuel src dst s 0 w3 with ⟨r, w''⟩
+  rw [hr] at this
+  simp only at this
+  subst this
+  rfl
+
+/-- **the `0 =>` branch is unreachable** on an in-memory filesystem with sufficient fuel: the
+predicates that C13.lean derives from a `.panic` are all refuted -/
+theorem fuel_branch_unreachable {w : World} {i : Nat} {m : FMap} (h : MemLeafAt w i m) (hwf : WF m)
+    (hk : FMap.NodupKeys m) (id : Nat) (p : Str) :
+    (∀ fuel, 0 < fuel → (∀ k e', m.find? k = some e' → k.length < p.length + fuel) →
+      ¬ VPath.RemoveDirAllOut fuel { fs := leafFS i, fsId := id, path := p } w) ∧
+    (∀ e, m.find? p = some e → e.ftype = .dir → ∀ fuel, descCount m p < fuel →
+      ¬ VPath.WalkAllOut fuel (Wk.st i id (Wk.children m p) []) w) := by
+  constructor
+  · intro fuel hf0 hfuel hout
+    exact removeDirAll_never_panics h hwf hk id fuel p hf0 hfuel (removeDirAllOut_panics _ _ _ hout)
+  · intro e he hd fuel hf hout
+    have := walkAllOut_panics _ _ _ hout
+    rw [← C05.walkCollect_eq h id p e he hd fuel] at this
+    exact (walk_never_panics h hwf hk id p).2.1 fuel hf this
+
+/-- the same for `copy_dir` between memory leaves, under the hypotheses of
+`copyDir_never_panics` -/
+theorem copyDir_fuel_branch_unreachable {w : World} {i j : Nat} {ms md : FMap}
+    (hi : MemLeafAt w i ms) (hj : MemLeafAt w j md) (hwfs : WF ms) (hwfd : WF md)
+    (hnd : FMap.NodupKeys ms) (sid did fuel : Nat) (S : Str) (bs : List Str)
+    (hbs : ∀ c ∈ bs, GoodComp c)
+    (hsrc : IsDirOf ms S → (∀ k e, ms.find? k = some e → under S k = true → Canon k) ∧
+      (i = j → under S (renderC bs) = false))
+    (hfuel : descendants ms S < fuel) :
+    ¬ ∃ w1 w2 s w3,
+      VPath.exists_ { fs := leafFS j, fsId := did, path := renderC bs } w = (.ok false, w1) ∧
+      VPath.createDir { fs := leafFS j, fsId := did, path := renderC bs } w1 = (.ok (), w2) ∧
+      VPath.walkDir { fs := leafFS i, fsId := sid, path := S } w2 = (.ok s, w3) ∧
+      VPath.CopyItemsOut { fs := leafFS i, fsId := sid, path := S }
+        { fs := leafFS j, fsId := did, path := renderC bs } fuel s w3 :=
+  fun hout => copyDir_never_panics hi hj hwfs hwfd hnd sid did fuel S bs hbs hsrc hfuel
+    (copyDirOut_panics fuel _ _ w hout)
+
+/-! ## 5. summary -/
+
+/-- **the recursive operations terminate on in-memory filesystems.** On memory leaves holding
+well-formed maps with unique keys, with the stated (explicit, computable) fuel, none of
+`walk_dir`+iteration, `remove_dir_all`, `copy_dir`, `move_dir` ends in the model's out-of-fuel
+sentinel — for every path (absent / file / directory; for walk and remove also the root) and every
+state of the destination; for the walk the sentinel is characterised exactly. -/
+theorem recursive_ops_terminate :
+    -- walk_dir + collecting the iterator: fuel = number of entries; exact characterisation
+    (∀ (w : World) (i : Nat) (m : FMap), MemLeafAt w i m → WF m → FMap.NodupKeys m →
+      ∀ (id : Nat) (p : Str),
+        (walkCollect m.length (mk i id p) w).1 ≠ .panic ∧
+        (∀ fuel, (walkCollect fuel (mk i id p) w).1 = .panic ↔
+          IsDirOf m p ∧ fuel ≤ descCount m p)) ∧
+    -- remove_dir_all: fuel = longest key length + 1, or any fuel ≥ 1 above the length difference
+    (∀ (w : World) (i : Nat) (m : FMap), MemLeafAt w i m → WF m → FMap.NodupKeys m →
+      ∀ (id : Nat) (p : Str),
+        (VPath.removeDirAll (keyFuel m) { fs := leafFS i, fsId := id, path := p } w).1 ≠ .panic ∧
+        (∀ fuel, 0 < fuel → (∀ k e', m.find? k = some e' → k.length < p.length + fuel) →
+          (VPath.removeDirAll fuel { fs := leafFS i, fsId := id, path := p } w).1 ≠ .panic)) ∧
+    -- copy_dir: fuel > number of descendants of the source
+    (∀ (w : World) (i j : Nat) (ms md : FMap), MemLeafAt w i ms → MemLeafAt w j md → WF ms →
+      WF md → FMap.NodupKeys ms → ∀ (sid did fuel : Nat) (S : Str) (bs : List Str),
+        (∀ c ∈ bs, GoodComp c) →
+        (IsDirOf ms S → (∀ k e, ms.find? k = some e → under S k = true → Canon k) ∧
+          (i = j → under S (renderC bs) = false)) →
+        descendants ms S < fuel →
+        (VPath.copyDir fuel { fs := leafFS i, fsId := sid, path := S }
+          { fs := leafFS j, fsId := did, path := renderC bs } w).1 ≠ .panic) ∧
+    -- move_dir: additionally the length bounds (fuel is also the depth of remove_dir_all)
+    (∀ (w : World) (i j : Nat) (ms md : FMap), MemLeafAt w i ms → MemLeafAt w j md → WF ms →
+      WF md → FMap.NodupKeys ms → ∀ (sid did fuel : Nat) (S : Str) (bs : List Str),
+        (∀ c ∈ bs, GoodComp c) →
+        (IsDirOf ms S → S ≠ [] ∧
+          (∀ k e, ms.find? k = some e → under S k = true → Canon k) ∧
+          (i = j → under S (renderC bs) = false) ∧
+          (i = j → ∀ k e, ms.find? k = some e → under S k = true →
+            (renderC bs).length + k.length < 2 * S.length + fuel)) →
+        descendants ms S < fuel →
+        (∀ k e, ms.find? k = some e → k.length < S.length + fuel) →
+        (VPath.moveDir fuel { fs := leafFS i, fsId := sid, path := S }
+          { fs := leafFS j, fsId := did, path := renderC bs } w).1 ≠ .panic) := by
+  refine ⟨?_, ?_, ?_, ?_⟩
+  · intro w i m h hwf hk id p
+    have := walk_never_panics h hwf hk id p
+    exact ⟨this.1, this.2.2.1⟩
+  · intro w i m h hwf hk id p
+    exact ⟨removeDirAll_never_panics_keyFuel h hwf hk id p,
+      fun fuel hf0 hfuel => removeDirAll_never_panics h hwf hk id fuel p hf0 hfuel⟩
+  · intro w i j ms md hi hj hwfs hwfd hnd sid did fuel S bs hbs hsrc hfuel
+    exact copyDir_never_panics hi hj hwfs hwfd hnd sid did fuel S bs hbs hsrc hfuel
+  · intro w i j ms md hi hj hwfs hwfd hnd sid did fuel S bs hbs hsrc hfuel hb1
+    exact moveDir_never_panics hi hj hwfs hwfd hnd sid did fuel S bs hbs hsrc hfuel hb1
+
+/-! ## 6. the divergence that IS real (outside the property)
+
+`copy_dir` of a directory into its own subtree on one filesystem: the walk of the source lists
+the destination directory it has just created, copies it into itself, lists that copy, … . In the
+model the run is out of fuel for every fuel tried, although the source has NO descendants at
+all (so `descendants < fuel` holds by a wide margin): the hypothesis "on one leaf the destination
+is not at or below the source" of `copyDir_never_panics` cannot be dropped. The real code
+loops until it fails for another reason (path length, memory). This input is a caller error
+outside C13; nothing here claims termination for it. -/
+
+/-- the empty directory `/r/a/e` of `wN` copied to `/r/a/e/s`: 0 descendants, fuel 15, sentinel -/
+theorem copyDir_into_own_subtree_diverges :
+    descendants C11.mN "/r/a/e".toList = 0 ∧
+    under "/r/a/e".toList (renderC ["r".toList, "a".toList, "e".toList, "s".toList]) = true ∧
+    ((C11.at_ 0 "/r/a/e").copyDir 15 (C11.at_ 0 "/r/a/e/s") C11.wN).1 = .panic := by
+  refine ⟨by decide, by decide, by decide +kernel⟩
+
+/-- the instances of C11.lean, restated -/
+theorem copyDir_into_own_subtree_diverges' :
+    ((C11.at_ 0 "/d").copyDir 12 (C11.at_ 0 "/d/sub") C11.w2).1 = .panic ∧
+    ((C11.at_ 0 "/e").copyDir 20 (C11.at_ 0 "/e/sub") C11.w2).1 = .panic :=
+  ⟨C11.copyDir_into_itself_diverges_12, C11.copyDir_into_itself_diverges_20⟩
+
+/-! ## 7. non-vacuity: the theorems instantiated on concrete nested trees
+
+`C05.sampleW` (depth 4, siblings a / ab / a.b, unsorted storage) for the walk; `C11.wN` (leaf 0:
+depth-4 tree below `/r` with an empty directory, an empty file, siblings; leaf 1: `/keep`) for
+the others. Hypotheses discharged by `decide`; outcomes also evaluated by the kernel. -/
+
+open C05 (sampleW worldW sampleW_leaf sampleW_wf sampleW_nodup pathsOf) in
+/-- walk: a directory, a file, an absent path, the root — fuel = 12 = number of entries -/
+example :
+    (walkCollect sampleW.length (mk 0 0 "/a".toList) worldW).1 ≠ .panic ∧
+    (walkCollect sampleW.length (mk 0 0 "/a/f".toList) worldW).1 ≠ .panic ∧
+    (walkCollect sampleW.length (mk 0 0 "/a/q".toList) worldW).1 ≠ .panic ∧
+    (walkCollect sampleW.length (mk 0 0 []) worldW).1 ≠ .panic :=
+  ⟨(walk_never_panics sampleW_leaf sampleW_wf sampleW_nodup 0 _).1,
+   (walk_never_panics sampleW_leaf sampleW_wf sampleW_nodup 0 _).1,
+   (walk_never_panics sampleW_leaf sampleW_wf sampleW_nodup 0 _).1,
+   (walk_never_panics sampleW_leaf sampleW_wf sampleW_nodup 0 _).1⟩
+
+open C05 (sampleW worldW sampleW_leaf sampleW_wf sampleW_nodup) in
+/-- the sentinel IS reachable, by starving the fuel only: `/a` has 6 descendants; fuel 6 ends in
+the sentinel, fuel 7 does not; on the file `/a/f` even fuel 0 does not -/
+example :
+    (walkCollect 6 (mk 0 0 "/a".toList) worldW).1 = .panic ∧
+    (walkCollect 7 (mk 0 0 "/a".toList) worldW).1 ≠ .panic ∧
+    (walkCollect 0 (mk 0 0 "/a/f".toList) worldW).1 ≠ .panic :=
+  ⟨(walk_sentinel_iff sampleW_leaf sampleW_wf sampleW_nodup 0 _ 6).2
+      ⟨⟨dirEntryNow, by decide, rfl⟩, by decide⟩,
+   (walk_never_panics sampleW_leaf sampleW_wf sampleW_nodup 0 _).2.1 7 (by decide),
+   fun hpan => by
+     have := ((walk_sentinel_iff sampleW_leaf sampleW_wf sampleW_nodup 0 "/a/f".toList 0).1 hpan).1
+     obtain ⟨e, he, hd⟩ := this
+     revert he hd
+     simp only [show sampleW.find? "/a/f".toList = some fileEntryNow by decide, Option.some.injEq]
+     rintro rfl hd
+     cases hd⟩
+
+open C05 (worldW pathsOf) in
+/-- the same by evaluation -/
+example : pathsOf (walkCollect 12 (mk 0 0 "/a/f".toList) worldW) = .err .other (some "/a/f".toList) ∧
+    pathsOf (walkCollect 0 (mk 0 0 "/a/q".toList) worldW) = .err .fileNotFound (some "/a/q".toList) := by
+  decide
+
+open C11 (mN wN wN_leaf0 wN_leaf1 mN_wf mN_nodup mK mK_wf at_ view) in
+/-- remove_dir_all with the computed fuel `keyFuel mN = 11`: a nested directory, a file, an
+absent path, the root -/
+example : keyFuel mN = 11 ∧
+    ((at_ 0 "/r/a").removeDirAll (keyFuel mN) wN).1 ≠ .panic ∧
+    ((at_ 0 "/r/ab").removeDirAll (keyFuel mN) wN).1 ≠ .panic ∧
+    ((at_ 0 "/zz/y").removeDirAll (keyFuel mN) wN).1 ≠ .panic ∧
+    ((at_ 0 "").removeDirAll (keyFuel mN) wN).1 ≠ .panic :=
+  ⟨by decide,
+   removeDirAll_never_panics_keyFuel wN_leaf0 mN_wf mN_nodup 0 _,
+   removeDirAll_never_panics_keyFuel wN_leaf0 mN_wf mN_nodup 0 _,
+   removeDirAll_never_panics_keyFuel wN_leaf0 mN_wf mN_nodup 0 _,
+   removeDirAll_never_panics_keyFuel wN_leaf0 mN_wf mN_nodup 0 _⟩
+
+open C11 (mN wN at_ view) in
+/-- what the model computes: the file gives `Other`, the absent path `Ok` and no change, the root
+`Ok` and an empty map; `/r` has four levels of directories (`/r`, `a`, `b`, `c`) and needs fuel 4:
+with 3 the sentinel is reached (by starving), with 4 not -/
+example :
+    ((at_ 0 "/r/ab").removeDirAll 11 wN).1 = .err .other (some "/r/ab".toList) ∧
+    ((at_ 0 "/zz/y").removeDirAll 11 wN).1 = .ok () ∧
+    ((at_ 0 "/zz/y").removeDirAll 11 wN).2.leaves = wN.leaves ∧
+    ((at_ 0 "").removeDirAll 11 wN).1 = .ok () ∧ view ((at_ 0 "").removeDirAll 11 wN).2 0 = [] ∧
+    ((at_ 0 "/r").removeDirAll 3 wN).1 = .panic ∧
+    ((at_ 0 "/r").removeDirAll 4 wN).1 = .ok () := by
+  simp only [← rmAll_eq]; decide +kernel
+
+open C11 (mN wN wN_leaf0 wN_leaf1 mN_wf mN_nodup mK mK_wf at_ mN_canon) in
+/-- copy_dir of the depth-4 tree `/r` (8 descendants, fuel 9) to leaf 1: every state of the
+destination — fresh `/c`, existing `/keep`, `/nope/c` without parent, `/keep/c` below a file —
+and the other kinds of source: the file `/r/ab`, the absent `/zz` -/
+example :
+    (VPath.copyDir 9 (at_ 0 "/r") { fs := leafFS 1, fsId := 1, path := renderC ["c".toList] } wN).1
+      ≠ .panic ∧
+    (VPath.copyDir 9 (at_ 0 "/r") { fs := leafFS 1, fsId := 1, path := renderC ["keep".toList] } wN).1
+      ≠ .panic ∧
+    (VPath.copyDir 9 (at_ 0 "/r")
+      { fs := leafFS 1, fsId := 1, path := renderC ["nope".toList, "c".toList] } wN).1 ≠ .panic ∧
+    (VPath.copyDir 9 (at_ 0 "/r")
+      { fs := leafFS 1, fsId := 1, path := renderC ["keep".toList, "c".toList] } wN).1 ≠ .panic ∧
+    (VPath.copyDir 1 (at_ 0 "/r/ab") { fs := leafFS 1, fsId := 1, path := renderC ["c".toList] } wN).1
+      ≠ .panic ∧
+    (VPath.copyDir 1 (at_ 0 "/zz") { fs := leafFS 1, fsId := 1, path := renderC ["c".toList] } wN).1
+      ≠ .panic := by
+  have hsrc : ∀ (S : Str) (bs : List Str), IsDirOf mN S →
+      (∀ k e, mN.find? k = some e → under S k = true → Canon k) ∧
+      ((0 : Nat) = 1 → under S (renderC bs) = false) :=
+    fun S bs _ => ⟨mN_canon S, fun h => absurd h (by decide)⟩
+  exact ⟨
+    copyDir_never_panics wN_leaf0 wN_leaf1 mN_wf mK_wf mN_nodup 0 1 9 _ _ (by decide) (hsrc _ _)
+      (by decide),
+    copyDir_never_panics wN_leaf0 wN_leaf1 mN_wf mK_wf mN_nodup 0 1 9 _ _ (by decide) (hsrc _ _)
+      (by decide),
+    copyDir_never_panics wN_leaf0 wN_leaf1 mN_wf mK_wf mN_nodup 0 1 9 _ _ (by decide) (hsrc _ _)
+      (by decide),
+    copyDir_never_panics wN_leaf0 wN_leaf1 mN_wf mK_wf mN_nodup 0 1 9 _ _ (by decide) (hsrc _ _)
+      (by decide),
+    copyDir_never_panics wN_leaf0 wN_leaf1 mN_wf mK_wf mN_nodup 0 1 1 _ _ (by decide) (hsrc _ _)
+      (by decide),
+    copyDir_never_panics wN_leaf0 wN_leaf1 mN_wf mK_wf mN_nodup 0 1 1 _ _ (by decide) (hsrc _ _)
+      (by decide)⟩
+
+open C11 (wN at_ view) in
+/-- the same runs evaluated: `Ok(8)`; refused; refused; refused; a file as source: `Other`, and
+the empty `/c` stays behind on leaf 1; an absent source: `FileNotFound`, likewise -/
+example :
+    ((at_ 0 "/r").copyDir 9 (at_ 1 "/c") wN).1 = .ok 8 ∧
+    ((at_ 0 "/r").copyDir 9 (at_ 1 "/keep") wN).1 = .err .other (some "/r".toList) ∧
+    ((at_ 0 "/r").copyDir 9 (at_ 1 "/keep") wN).2.leaves = wN.leaves ∧
+    ((at_ 0 "/r").copyDir 9 (at_ 1 "/nope/c") wN).1 = .err .other (some "/r".toList) ∧
+    ((at_ 0 "/r").copyDir 9 (at_ 1 "/nope/c") wN).2.leaves = wN.leaves ∧
+    ((at_ 0 "/r").copyDir 9 (at_ 1 "/keep/c") wN).1 = .err .other (some "/r".toList) ∧
+    ((at_ 0 "/r").copyDir 9 (at_ 1 "/keep/c") wN).2.leaves = wN.leaves ∧
+    ((at_ 0 "/r/ab").copyDir 1 (at_ 1 "/c") wN).1 = .err .other (some "/r/ab".toList) ∧
+    view ((at_ 0 "/r/ab").copyDir 1 (at_ 1 "/c") wN).2 1 =
+      [("/c", .dir, []), ("/keep", .file, [107]), ("", .dir, [])] ∧
+    ((at_ 0 "/zz").copyDir 1 (at_ 1 "/c") wN).1 = .err .fileNotFound (some "/zz".toList) ∧
+    ((at_ 0 "/zz").copyDir 1 (at_ 0 "/zz") wN).1 = .ok 0 := by decide +kernel
+
+open C11 (mN wN wN_leaf0 mN_wf mN_nodup at_ mN_canon) in
+/-- copy_dir inside ONE leaf: `/r/a` (5 descendants, fuel 6) to the fresh `/r/a2`, to the
+existing sibling `/r/ab`, and onto itself (`/r/a` exists: refused) -/
+example :
+    (VPath.copyDir 6 (at_ 0 "/r/a")
+      { fs := leafFS 0, fsId := 0, path := renderC ["r".toList, "a2".toList] } wN).1 ≠ .panic ∧
+    (VPath.copyDir 6 (at_ 0 "/r/a")
+      { fs := leafFS 0, fsId := 0, path := renderC ["r".toList, "ab".toList] } wN).1 ≠ .panic ∧
+    (VPath.copyDir 6 (at_ 0 "/r/a")
+      { fs := leafFS 0, fsId := 0, path := renderC ["r".toList, "a".toList] } wN) =
+        (.err .other (some "/r/a".toList), wN) :=
+  ⟨copyDir_never_panics wN_leaf0 wN_leaf0 mN_wf mN_wf mN_nodup 0 0 6 _ _ (by decide)
+      (fun _ => ⟨mN_canon _, fun _ => by decide⟩) (by decide),
+   copyDir_never_panics wN_leaf0 wN_leaf0 mN_wf mN_wf mN_nodup 0 0 6 _ _ (by decide)
+      (fun _ => ⟨mN_canon _, fun _ => by decide⟩) (by decide),
+   (copyDir_outcome wN_leaf0 wN_leaf0 mN_wf mN_wf mN_nodup 0 0 6 _ _).1 (by decide)⟩
+
+open C11 (mN wN wN_leaf0 wN_leaf1 mN_wf mN_nodup mK mK_wf at_ mN_canon) in
+/-- move_dir of `/r` (fuel 12) to leaf 1: fresh, existing, parentless destination; a file as
+source; and inside leaf 0 to the fresh `/r2` -/
+example :
+    (VPath.moveDir 12 (at_ 0 "/r") { fs := leafFS 1, fsId := 1, path := renderC ["c".toList] } wN).1
+      ≠ .panic ∧
+    (VPath.moveDir 12 (at_ 0 "/r") { fs := leafFS 1, fsId := 1, path := renderC ["keep".toList] } wN).1
+      ≠ .panic ∧
+    (VPath.moveDir 12 (at_ 0 "/r")
+      { fs := leafFS 1, fsId := 1, path := renderC ["nope".toList, "c".toList] } wN).1 ≠ .panic ∧
+    (VPath.moveDir 12 (at_ 0 "/r/ab") { fs := leafFS 1, fsId := 1, path := renderC ["c".toList] } wN).1
+      ≠ .panic ∧
+    (VPath.moveDir 12 (at_ 0 "/r") { fs := leafFS 0, fsId := 0, path := renderC ["r2".toList] } wN).1
+      ≠ .panic := by
+  have hsrc : ∀ (S : Str) (bs : List Str), IsDirOf mN S → S ≠ [] → IsDirOf mN S → S ≠ [] ∧
+      (∀ k e, mN.find? k = some e → under S k = true → Canon k) ∧
+      ((0 : Nat) = 1 → under S (renderC bs) = false) ∧
+      ((0 : Nat) = 1 → ∀ k e, mN.find? k = some e → under S k = true →
+        (renderC bs).length + k.length < 2 * S.length + 12) :=
+    fun S bs _ hS _ => ⟨hS, mN_canon S, fun h => absurd h (by decide), fun h => absurd h (by decide)⟩
+  have hb : ∀ (S : Str) k e, mN.find? k = some e → k.length < S.length + 12 :=
+    fun S k e hk => by have := keys_bound mN 12 (by decide) k e hk; omega
+  exact ⟨
+    moveDir_never_panics wN_leaf0 wN_leaf1 mN_wf mK_wf mN_nodup 0 1 12 _ _ (by decide)
+      (fun hd => hsrc _ _ hd (by decide) hd) (by decide) (hb _),
+    moveDir_never_panics wN_leaf0 wN_leaf1 mN_wf mK_wf mN_nodup 0 1 12 _ _ (by decide)
+      (fun hd => hsrc _ _ hd (by decide) hd) (by decide) (hb _),
+    moveDir_never_panics wN_leaf0 wN_leaf1 mN_wf mK_wf mN_nodup 0 1 12 _ _ (by decide)
+      (fun hd => hsrc _ _ hd (by decide) hd) (by decide) (hb _),
+    moveDir_never_panics wN_leaf0 wN_leaf1 mN_wf mK_wf mN_nodup 0 1 12 _ _ (by decide)
+      (fun hd => hsrc _ _ hd (by decide) hd) (by decide) (hb _),
+    moveDir_never_panics wN_leaf0 wN_leaf0 mN_wf mN_wf mN_nodup 0 0 12 _ _ (by decide)
+      (fun _ => ⟨by decide, mN_canon _, fun _ => by decide, fun _ k e hk _ => by
+        have := keys_bound mN 12 (by decide) k e hk
+        show 3 + k.length < 2 * 2 + 12
+        omega⟩) (by decide) (hb _)⟩
+
+open C11 (wN at_ view) in
+/-- evaluated: the move succeeds; an existing destination is refused without a change; a file as
+source fails with `Other` and leaves the empty `/c` behind -/
+example :
+    ((at_ 0 "/r").moveDir 12 (at_ 1 "/c") wN).1 = .ok () ∧
+    ((at_ 0 "/r").moveDir 12 (at_ 1 "/keep") wN).1 = .err .other (some "/r".toList) ∧
+    ((at_ 0 "/r").moveDir 12 (at_ 1 "/keep") wN).2.leaves = wN.leaves ∧
+    ((at_ 0 "/r/ab").moveDir 12 (at_ 1 "/c") wN).1 = .err .other (some "/r/ab".toList) ∧
+    view ((at_ 0 "/r/ab").moveDir 12 (at_ 1 "/c") wN).2 1 =
+      [("/c", .dir, []), ("/keep", .file, [107]), ("", .dir, [])] ∧
+    ((at_ 0 "/zz").moveDir 12 (at_ 0 "/zz") wN).1 = .ok () := by
+  unfold VPath.moveDir; simp only [← rmAll_eq]; decide +kernel
+
+open C11 (mN wN wN_leaf0 mN_wf mN_nodup) in
+/-- the `0 =>` branch is unreachable on `wN`: the predicate of C13.lean is refuted -/
+example : ¬ VPath.RemoveDirAllOut 11 { fs := leafFS 0, fsId := 0, path := "/r".toList } wN :=
+  (fuel_branch_unreachable wN_leaf0 mN_wf mN_nodup 0 "/r".toList).1 11 (by decide)
+    (fun k e hk => by have := keys_bound mN 11 (by decide) k e hk; omega)
 
 end Vfs.C13
